@@ -151,6 +151,25 @@ class Check(object):
             os.remove(path)
         return rejected
 
+    def validate_beyond(self, module, cfg, traces, label, **kw):
+        """Job T for behaviour BEYOND the listed property (the specification grows past the properties): the traces
+        are judged by TLC like any others, but a rejection is reported as an `EXTRA:` line and counted in the
+        evidence, never as a VIOLATION of this check's property."""
+        shadow = Check(self.pid, self.tier, self.seed)
+        try:
+            rej = shadow.validate(module, cfg, traces, **kw)
+        finally:
+            shutil.rmtree(shadow.tmp, ignore_errors=True)
+        self.states += shadow.states
+        self.transitions += shadow.transitions
+        self.jobs += [dict(j, label="beyond the property: " + label) for j in shadow.jobs]
+        info = self.extra.setdefault("beyond_the_property", {})
+        info[label] = dict(traces=len(traces), accepted=shadow.traces_ok, rejected=len(rej),
+                           rejected_clauses=sorted({c for _, _, cl in rej for c in cl}))
+        for tr, i, cl in rej[:5]:
+            print("EXTRA: %s (beyond property %s): event %d rejected by %s" % (label, self.pid, i, cl))
+        return rej
+
     # ------------------------------------------------------------------ finish
     def finish(self):
         from .known import load_known
